@@ -90,7 +90,7 @@ m = {
         "guard": "verif (Go build tag)",
         "enable": "go build -tags verif (vcheck builds its helper binaries from /repo's working tree through the replace directive in /verif/go.mod)",
         "baseline_off_cmd": "for m in $(cat /w/out/gomods.txt); do MF=$(cd /repo/$m && . /w/out/goenv.sh && gomodflag); (cd /repo/$m && go test $MF -json -vet=off -count=1 -timeout 25m ./...); done",
-        "source_commits": [],
+        "source_commits": ["467f826", "7d47fbe"],
         "add_only": True,
     },
     "engines": [
